@@ -443,6 +443,9 @@ func genC12(tier string, seed uint64) {
 		}
 	}
 	credSets := [][]string{{}, {"*"}, {"root:root"}, {"admin:123456", "root:root"}, {":"}, {":123456"}, {"guest:"}, {"root:admin", "*"}, {"rootroot"}, {"a:b:c", "root:root"}, {"root:root", "root:admin", "guest:123456"}}
+	// the same user with two or three passwords, in both orders; the same password for two users
+	credSets = append(credSets, []string{"root:root", "root:admin"}, []string{"root:admin", "root:root"}, []string{"admin:", "admin:123456", "admin:admin"},
+		[]string{":root", ":"}, []string{"root:123456", "guest:123456"}, []string{"guest:root", "root:root", "guest:admin"})
 	for i := 0; i < 6; i++ {
 		var cs []string
 		for k := r.Intn(4); k > 0; k-- {
@@ -452,13 +455,10 @@ func genC12(tier string, seed uint64) {
 	}
 	att := func(u, p string) string { return hx([]byte(u)) + ":" + hx([]byte(p)) }
 	// ssh: every credential set x all 16 attempts (one connection each)
-	for ci, cs := range credSets {
+	for _, cs := range credSets {
 		var as []string
 		for _, u := range users {
 			for _, p := range passes {
-				if tier != "thorough" && ci > 4 && (len(as)+ci)%3 != 0 {
-					continue
-				}
 				as = append(as, att(u, p))
 			}
 		}
